@@ -1,6 +1,7 @@
 """Load data from a text file."""
 from __future__ import annotations
 from typing import Callable, Dict, Optional, Sequence, Union
+import itertools
 import re
 from os import PathLike
 
@@ -106,6 +107,7 @@ def loadtxt(
             header = src.readline()
     else:
         header = fname.readline()
+        fname = itertools.chain([header], fname)
     if isinstance(header, bytes):
         header = header.decode("utf-8")
 
